@@ -317,6 +317,53 @@ func c02UnpairedSurrogates(c *mon.Ctx) {
 	}
 }
 
+// c02ReplacementCharRespelled: a signed object that holds U+FFFD (the replacement character, as any text that once went
+// through a lossy decoder does). A canonicaliser that folds two escapes into one character whenever the first is half a
+// surrogate pair turns "\ud800\ud800", "\ud800\u0041", "\udc00\ud800" ... into that one character, while every decoder
+// reads two: the copy is another object and must not verify.
+func c02ReplacementCharRespelled(c *mon.Ctx) {
+	if c.Shard != 0 {
+		return
+	}
+	id := gen.NewIdentity(c.RandShared("surrogate-signer"), "origin.example", "ed25519:1")
+	signed, err := gmsl.SignJSON(id.Server, gmsl.KeyID(id.KeyID), id.Priv, []byte("{\"amount\":\"pay \uFFFD1\",\"nested\":{\"k\uFFFD\":[\"v\"]},\"note\":\"x\"}"))
+	if err != nil {
+		c.Case("sign:replacement-char", nil, func() {
+			c.Failf("sign:refuses-valid-object:replacement-char", "SignJSON refuses an object holding U+FFFD in a value and a member name: %v", err)
+		})
+		return
+	}
+	canon := string(signed)
+	for _, esc := range []string{`\ud800\ud800`, `\ud800\udbff`, `\uD83D\uD83D`, `\udc00\ud800`, `\udc00\udc00`, `\ud800\u0041`, `\udbff\ufffd`, `\ud800\ufffd`, `\udfff\u0020`} {
+		for kind, text := range map[string]string{
+			"replacement-char-in-value-respelled-as-two-escapes": strings.Replace(canon, "pay \uFFFD1", "pay "+esc+"1", 1),
+			"replacement-char-in-name-respelled-as-two-escapes":  strings.Replace(canon, "\"k\uFFFD\"", "\"k"+esc+"\"", 1),
+		} {
+			c.Case("verify:"+kind, map[string]any{"escape": esc, "text": text}, func() {
+				c.Nontrivial("respelled|" + kind + "|" + esc)
+				c.Count("replacement_char_respellings")
+				if text == canon {
+					c.Failf("harness:surrogate-mutation-did-not-apply", "%s", kind)
+					return
+				}
+				if err := gmsl.VerifyJSON(id.Server, gmsl.KeyID(id.KeyID), id.Pub, []byte(text)); err == nil {
+					c.Failf("verify:accepts-mutation:"+kind, "VerifyJSON accepts %s, a copy of the signed %s in which U+FFFD was replaced by the two escapes %s (two characters to every decoder)", text, canon, esc)
+				}
+			})
+		}
+	}
+	// the well-formed spellings of the same character still verify
+	for _, esc := range []string{`\ufffd`, `\uFFFD`} {
+		text := strings.Replace(canon, "pay \uFFFD1", "pay "+esc+"1", 1)
+		c.Case("verify:replacement-char-escaped", map[string]any{"text": text}, func() {
+			c.Count("replacement_char_respellings")
+			if err := gmsl.VerifyJSON(id.Server, gmsl.KeyID(id.KeyID), id.Pub, []byte(text)); err != nil {
+				c.Failf("verify:fails-on-reserialisation:replacement-char-escaped", "VerifyJSON refuses %s, the signed object with U+FFFD written as %s: %v", text, esc, err)
+			}
+		})
+	}
+}
+
 func c02InvalidUTF8Names(c *mon.Ctx) {
 	if c.Shard != 0 {
 		return
@@ -393,6 +440,7 @@ func runC02(c *mon.Ctx) {
 	c02NonObjects(c)
 	c02InvalidUTF8Names(c)
 	c02UnpairedSurrogates(c)
+	c02ReplacementCharRespelled(c)
 	c02InvalidUTF8Signers(c)
 	r := c.Rand("objects")
 	sc := gen.Scramble(c.Rand("scramble"))
